@@ -19,6 +19,8 @@
 
    Items of a call (tuples):
      <<"typedef", n, ty>>  <<"var", n, ty, const>>  <<"func", n, sig>>  <<"macroint", n, v>>  <<"macrodots", n>>
+     <<"sconst", n, v>>   `static const int n = v;` -- goes through _add_integer_constant like a #define (it is even
+                          stored under the key 'macro n'), but in declaration order, not in the macro phase
 
    Laws checked on this machine by TLC (MC_Redecl.cfg):
      IntsImmutable     an integer constant never changes value once it has one
@@ -52,12 +54,14 @@ Key(it) == CASE it[1] = "typedef"   -> "typedef " \o it[2]
              [] it[1] = "func"      -> "function " \o it[2]
              [] it[1] = "macroint"  -> "macro " \o it[2]
              [] it[1] = "macrodots" -> "macro " \o it[2]
+             [] it[1] = "sconst"    -> "macro " \o it[2]
 
 Desc(it) == CASE it[1] = "typedef"   -> it[3]
               [] it[1] = "var"       -> it[3]
               [] it[1] = "func"      -> it[3]
               [] it[1] = "macroint"  -> IntStr(it[3])
               [] it[1] = "macrodots" -> "..."
+              [] it[1] = "sconst"    -> IntStr(it[3])
 
 Quals(it) == IF it[1] = "var" /\ it[4] THEN 1 ELSE 0
 
@@ -67,7 +71,7 @@ IsMacro(it) == it[1] \in {"macroint", "macrodots"}
 Obj(it, next) ==
   CASE it[1] \in {"typedef", "var"} -> IF Cached(it[3]) THEN <<"cached", it[3]>> ELSE <<"fresh", next>>
     [] it[1] = "func"               -> <<"fresh", next>>
-    [] it[1] = "macroint"           -> IF SmallInt(it[3]) THEN <<"smallint", it[3]>> ELSE <<"fresh", next>>
+    [] it[1] \in {"macroint", "sconst"} -> IF SmallInt(it[3]) THEN <<"smallint", it[3]>> ELSE <<"fresh", next>>
     [] it[1] = "macrodots"          -> <<"fresh", next>>
 
 \* machine state: s = [decl : key -> [obj, desc, quals], ints : name -> value, next : Nat]
@@ -102,7 +106,7 @@ AddConst(s, n, v, override) ==
 Item(s, it, override) ==
   LET obj == Obj(it, s.next)
       s1  == [s EXCEPT !.next = s.next + 1]      \* the parser has built its object(s)
-  IN IF it[1] = "macroint"
+  IN IF it[1] \in {"macroint", "sconst"}
      THEN IF Variant = "declfirst"
           THEN LET d == Declare(s1, Key(it), obj, Desc(it), 0, override) IN
                IF d.err # "" THEN d
@@ -176,7 +180,7 @@ OkMeansDeclaredStep(t, items, err) ==
                  /\ Key(items[i]) \in DOMAIN t.decl
                  /\ \/ t.decl[Key(items[i])].desc = Desc(items[i]) /\ t.decl[Key(items[i])].quals = Quals(items[i])
                     \/ \E j \in DOMAIN items : j # i /\ Key(items[j]) = Key(items[i])   \* overridden inside the same call
-                 /\ items[i][1] = "macroint" => items[i][2] \in DOMAIN t.ints /\ t.ints[items[i][2]] = items[i][3]
+                 /\ items[i][1] \in {"macroint", "sconst"} => items[i][2] \in DOMAIN t.ints /\ t.ints[items[i][2]] = items[i][3]
 
 \* ideal expectations (deviation classes)
 EqualRejected(s, it, override) ==      \* a single item, equal in meaning to what is bound, is rejected
